@@ -32,7 +32,7 @@ func (p *propC10) Assumptions() []string {
 	}
 }
 func (p *propC10) ProbeNames() []string {
-	return []string{"greedy read at frame end", "one call per file on the same reader", "frame end on a 4096 multiple", "crc-only path with > 32 KiB data", "stutter consumed", "chain of >= 2 frames", "tail: valid file behind frame", "eof delivered with data"}
+	return []string{"greedy read at frame end", "one call per file on the same reader", "chain holds a file and its byte-order twin", "frame end on a 4096 multiple", "crc-only path with > 32 KiB data", "stutter consumed", "chain of >= 2 frames", "tail: valid file behind frame", "eof delivered with data"}
 }
 
 // padFrameTo appends an unknown-message filler so that the data size becomes target.
@@ -134,6 +134,12 @@ func (p *propC10) Gen(idx int) *Scenario {
 	for i := 0; i < nfr; i++ {
 		e := pick()
 		m := e.Med
+		if i > 0 && r.Chance(1, 4) && sc.Media[i-1].Records != nil {
+			// the previous file once more with every definition in the other byte order:
+			// identical field lists under the opposite architecture flag
+			m = Medium{Records: flipStreamArch(sc.Media[i-1].Records)}
+			sc.Params["twin_arch"] = "1"
+		}
 		m.ID = fmt.Sprintf("f%d", i)
 		sc.Media = append(sc.Media, m)
 		ids = append(ids, m.ID)
@@ -317,6 +323,7 @@ func (p *propC10) Check(sc *Scenario, st *Stats) []Violation {
 				continue
 			}
 			st.ProbeIf(nfr >= 2, "chain of >= 2 frames")
+			st.ProbeIf(sc.Params["twin_arch"] != "", "chain holds a file and its byte-order twin")
 			for i := 0; i < nfr && i < len(r.Dumps); i++ {
 				alone := byID[len(c10Calls)*2+i]
 				if alone == nil || alone.ErrClass != "nil" {
